@@ -1,24 +1,30 @@
 (* Corr/C20.v -- correspondence runner for C20: each case carries what truth-cli wrote (read back by the
    harness's own walkers over the output bytes); [model_of] recomputes it with Model/Ids.v. *)
-From TV Require Import Base.I32 Model.Ids Gen.Ids.
+From TV Require Import Base.I32 Base.F32 Model.Ops Model.Expr Gen.OpTable Model.Ids Gen.Ids Model.IdsExpr.
 Open Scope Z_scope.
 
 Inductive ires (A : Type) := IOk (a : A) | IErr | IPanic.
 Arguments IOk {A} a. Arguments IErr {A}. Arguments IPanic {A}.
 
-Definition sd (n : nat) (id : option Z) : sprite_decl := {| sd_name := n; sd_id := id |}.
+Definition sx (n : nat) (id : option expr) : sprite_src := {| ss_name := n; ss_id := id |}.
+Definition sc (n : nat) (num : option Z) : script_src := {| sc_name := n; sc_number := num |}.
 Definition te (s : option nat) (f : Z) : tentry := {| te_script := s; te_flags := f |}.
 Definition mk_sparse (len : nat) (tbl : list (nat * tentry)) (d : tentry) : sparse :=
   {| sp_len := len; sp_tbl := tbl; sp_default := d |}.
 
 Inductive c20case :=
-| KAnm (entries : list (list sprite_decl)) (scripts : list nat) (uses : list use) (r : ires (list Z * list Z))
+| KAnm (consts : list (nat * expr)) (entries : list (list sprite_src)) (scripts : list script_src) (uses : list use)
+       (r : ires (list Z * list Z * list Z))     (* sprite ids, script numbers (i32), argument values (u32) *)
 | KEcl (names uses : list nat) (numbers : list (option Z)) (r : ires (list Z * list nat))
 | KPos (names uses : list nat) (r : ires (list Z))
 | KMsg (has_flags : bool) (s : sparse) (scripts : list (nat * Z)) (r : ires (list (Z * Z)))
 | KSparse (dense : list tentry) (s : sparse).
 
 Definition T := gen_idtable.
+
+(* transcendental functions are never generated *)
+Definition libm0 (_ : unop) (_ : Z) : Z := 0.
+Definition FUEL : nat := 200.
 
 Fixpoint list_eqb {A} (eqb : A -> A -> bool) (l1 l2 : list A) : bool :=
   match l1, l2 with
@@ -44,9 +50,11 @@ Definition sparse_eqb (a b : sparse) : bool :=
 
 Definition model_of (c : c20case) : bool :=
   match c with
-  | KAnm entries scripts uses r =>
-      agree (fun a b : list Z * list Z => list_eqb Z.eqb (fst a) (fst b) && list_eqb Z.eqb (snd a) (snd b))
-        (compile_anm T {| ai_entries := entries; ai_scripts := scripts; ai_uses := uses |}) r
+  | KAnm consts entries scripts uses r =>
+      agree (fun a b : list Z * list Z * list Z =>
+               list_eqb Z.eqb (fst (fst a)) (fst (fst b)) && list_eqb Z.eqb (snd (fst a)) (snd (fst b)) && list_eqb Z.eqb (snd a) (snd b))
+        (compile_anm_src gen_optable libm0 FUEL T
+           {| as_consts := consts; as_entries := entries; as_scripts := scripts; as_uses := uses |}) r
   | KEcl names uses numbers r =>
       agree (fun a b : list Z * list nat => list_eqb Z.eqb (fst a) (fst b) && list_eqb Nat.eqb (snd a) (snd b))
         (do args <- compile_positions (it_sub_const T) names uses;
